@@ -764,6 +764,13 @@ class DecoderLayout:
             r = self.read_expr(n, ("local", "<offset>"))
             if r is not None and r["kind"] == "u16":
                 return Lin(0, (r["sym"],))
+        if isinstance(n, ast.BinOp) and isinstance(n.op, (ast.Add, ast.BitOr)):
+            # a 16-bit length joined in place from two neighbouring bytes, inside an offset computation
+            mark = len(self.reads)
+            r = self.read_expr(n, ("local", "<offset>"))
+            if r is not None and r["kind"] == "u16":
+                return Lin(0, (r["sym"],))
+            del self.reads[mark:]
         if isinstance(n, ast.BinOp) and isinstance(n.op, ast.Add):
             return self.lin(n.left).add(self.lin(n.right))
         raise AnalysisError("decoder of %s: index expression %s not understood" % (self.cls.name, U(n)))
@@ -1027,6 +1034,16 @@ class DecoderLayout:
                 else:
                     r["consumed"] = False
                 return
+            # another name for what a local already holds (the result of a helper handed on by another helper)
+            if isinstance(t, ast.Name) and isinstance(v, ast.Name) and v.id in self.locals and v.id not in self.cursors \
+                    and v.id not in getattr(self, "hdralias", {}):
+                self.locals[t.id] = self.locals[v.id]
+                return
+            # end = len(pkt)
+            if isinstance(t, ast.Name) and isinstance(v, ast.Call) and isinstance(v.func, ast.Name) and v.func.id == "len" and len(v.args) == 1 \
+                    and isinstance(v.args[0], ast.Name) and v.args[0].id == self.pkt:
+                self.locals[t.id] = {"kind": "pktlen", "off": None}
+                return
             # start = v + k with v the index the fixed-header scan stopped at (the result of a helper that skips the header)
             if isinstance(t, ast.Name) and self.hdr.get("var") and t.id != self.hdr["var"] and not isinstance(v, ast.Subscript):
                 rl = self._rel_to(v, self.hdr["var"])
@@ -1122,6 +1139,10 @@ class DecoderLayout:
                 raise AnalysisError("decoder of %s: assignment %s not understood" % (self.cls.name, U(s)))
             raise AnalysisError("decoder of %s: assignment %s not understood" % (self.cls.name, U(s)))
         if isinstance(s, ast.AugAssign) and isinstance(s.target, ast.Name) and isinstance(s.op, ast.Add) \
+                and s.target.id in getattr(self, "hdralias", {}):
+            self.hdralias[s.target.id] = self.hdralias[s.target.id].add(self.lin(s.value))       # pos += k
+            return
+        if isinstance(s, ast.AugAssign) and isinstance(s.target, ast.Name) and isinstance(s.op, ast.Add) \
                 and isinstance(self.locals.get(s.target.id), dict) and self.locals[s.target.id]["kind"] in ("lin", "u16"):
             cur = self.lin(s.target)
             self.locals[s.target.id] = {"kind": "lin", "lin": cur.add(self.lin(s.value)), "off": None}
@@ -1174,11 +1195,14 @@ class DecoderLayout:
                 self.guards.pop()
                 return
             cur0 = dict(self.cursors)
+            ha0 = dict(getattr(self, "hdralias", {}))
             lin0 = {k: v for k, v in self.locals.items() if isinstance(v, dict) and v.get("kind") == "lin"}
             self.guards.append((g, True, desc))
             self._run(s.body)
             self.guards.pop()
             cur1 = dict(self.cursors)
+            ha1 = dict(getattr(self, "hdralias", {}))
+            self.hdralias = dict(ha0)
             lin1 = {k: v for k, v in self.locals.items() if isinstance(v, dict) and v.get("kind") == "lin"}
             self.cursors = dict(cur0)
             self.locals.update(lin0)
@@ -1186,6 +1210,13 @@ class DecoderLayout:
             self._run(s.orelse)
             self.guards.pop()
             cur2 = dict(self.cursors)
+            ha2 = dict(getattr(self, "hdralias", {}))
+            for k in set(ha1) | set(ha2):
+                a, b = ha1.get(k), ha2.get(k)
+                if a == b:
+                    self.hdralias[k] = a
+                else:
+                    self.hdralias[k] = ha0.get(k, Lin(0)).add(Lin(0, ("opt@%s" % g,)))      # a position past an optional section
             lin2 = {k: v for k, v in self.locals.items() if isinstance(v, dict) and v.get("kind") == "lin"}
             for k in set(lin1) | set(lin2):
                 a, b = lin1.get(k), lin2.get(k)
@@ -1202,8 +1233,30 @@ class DecoderLayout:
                     self.cursors[k] = base.add(Lin(0, ("opt@%s" % g,)))
             return
         if isinstance(s, ast.While):
-            # while len(rest): ... repeated records until the packet is exhausted
+            # while pos < len(pkt) (or a local that holds len(pkt)): the same repetition, walked by a position
             t = s.test
+            if isinstance(t, ast.Compare) and len(t.ops) == 1 and isinstance(t.ops[0], ast.Lt) and isinstance(t.left, ast.Name) \
+                    and t.left.id in getattr(self, "hdralias", {}):
+                rhs = t.comparators[0]
+                is_len = (isinstance(rhs, ast.Call) and isinstance(rhs.func, ast.Name) and rhs.func.id == "len" and len(rhs.args) == 1
+                          and isinstance(rhs.args[0], ast.Name) and rhs.args[0].id == self.pkt) or \
+                    (isinstance(rhs, ast.Name) and isinstance(self.locals.get(rhs.id), dict) and self.locals[rhs.id].get("kind") == "pktlen")
+                if is_len:
+                    pname = t.left.id
+                    d0 = -1 - (self.hdr.get("d") or 0)
+                    start = self.hdralias[pname].add(Lin(d0))           # as a body offset
+                    self.guards.append(("repeat", True, ("repeat", pname)))
+                    mark = len(self.reads)
+                    self.hdralias[pname] = Lin(-d0, ("iter",))          # body offset 0 + iter
+                    self._run(s.body)
+                    adv = self.hdralias[pname].add(Lin(d0))
+                    self.guards.pop()
+                    body = self.reads[mark:]
+                    del self.reads[mark:]
+                    self.rec("repeat", None, start, body=body, advance=adv, node=s)
+                    self.hdralias[pname] = start.add(Lin(-d0, ("rest",)))
+                    return
+            # while len(rest): ... repeated records until the packet is exhausted
             if isinstance(t, ast.Name) and t.id in self.cursors:
                 t = ast.Call(func=ast.Name(id="len", ctx=ast.Load()), args=[t], keywords=[])      # while rest:  ==  while len(rest):
             if isinstance(t, ast.Call) and isinstance(t.func, ast.Name) and t.func.id == "len" and isinstance(t.args[0], ast.Name) \
